@@ -1,5 +1,7 @@
 import Ecal.Lemmas.PriorityBook
 import Ecal.Lemmas.PriorityHeapPop
+import Ecal.Lemmas.PriorityHeapPush
+import Ecal.Lemmas.PriorityCascade
 /-!
 # C10 — priorities order execution; the first failing rule ends a trigger sequence
 
@@ -193,6 +195,38 @@ theorem fail_first_after_reload (sort : List Rule → List Rule) (p : Proc) (hp 
 example : processRulesAfter stableSort { flag := true } [.finish, .reset, .addRules, .start]
     [⟨1, 1, true⟩, ⟨2, 2, false⟩] = ([⟨1, 1, true⟩], [⟨1, 1, true⟩]) := by decide
 
+/-- **Equal priorities may run in any order.** `sort.Sort` promises a permutation in
+    non-decreasing order and nothing about ties, and the input order comes out of a map iteration;
+    the property fixes only the priority numbers. For two admissible sorts the *priorities* of the
+    sorted rules coincide position by position, so with the flag off the priority sequence of the
+    started actions is the same whichever tie order the sort picked. (With the flag on the
+    sequence of priorities up to the first failure depends on the tie order only if rules of one
+    priority differ in failing; the correspondence therefore compares priority sequences and
+    generates equal-priority groups with a uniform outcome.) -/
+theorem tie_order_is_free (sort₁ sort₂ : List Rule → List Rule) (h₁ : IsPrioSort sort₁)
+    (h₂ : IsPrioSort sort₂) (rules : List Rule) :
+    (processRules sort₁ false rules).1.map (·.prio) = (processRules sort₂ false rules).1.map (·.prio) := by
+  rw [(fail_first_prefix sort₁ rules).2, (fail_first_prefix sort₂ rules).2]
+  have hp : ((sort₁ rules).map (·.prio)).Perm ((sort₂ rules).map (·.prio)) :=
+    ((h₁.perm rules).trans (h₂.perm rules).symm).map _
+  have s1 : ((sort₁ rules).map (·.prio)).Pairwise (· ≤ ·) := List.pairwise_map.mpr (h₁.sorted rules)
+  have s2 : ((sort₂ rules).map (·.prio)).Pairwise (· ≤ ·) := List.pairwise_map.mpr (h₂.sorted rules)
+  exact hp.eq_of_pairwise (fun a b _ _ h1 h2 => Int.le_antisymm h1 h2) s1 s2
+
+/-- flag on: when a rule fails, the first failing rule *was started* (so whatever events its action
+    added before returning the error are in the queue) and it is the last rule started -/
+theorem failing_rule_was_started (sort : List Rule → List Rule) (rules : List Rule) (r : Rule)
+    (h : (sort rules).find? (·.fails) = some r) :
+    r ∈ (processRules sort true rules).1 ∧ (processRules sort true rules).1.getLast? = some r ∧
+    (processRules sort true rules).2 = [r] := by
+  rw [(fail_first_prefix sort rules).1]
+  rcases uptoFirstFail_spec (sort rules) with ⟨h1, _⟩ | ⟨pre, r', post, _, _, _, h4, h5⟩
+  · have := List.find?_some h
+    have hm := List.mem_of_find?_eq_some h
+    rw [h1 r hm] at this; cases this
+  · rw [h5] at h; cases h
+    simp [h4, h5]
+
 /-! ## the per-cascade queue -/
 
 theorem itemLt_strict : StrictTotal Item.lt where
@@ -338,6 +372,178 @@ theorem heap_pop_is_min (l l' : List Item) (x : Item) (hok : Heap.Ok Item.lt l l
 
 example : (Heap.pop Item.lt (Heap.push Item.lt (Heap.push Item.lt (Heap.push Item.lt [] ⟨3, 0, 10⟩) ⟨0, 1, 11⟩) ⟨0, 2, 12⟩)).map
     (fun r => (r.1.val, r.2.map (·.val))) = some (11, [12, 10]) := by decide
+
+/-! ### the real heap implements the abstract queue -/
+
+/-- **`heap.Push` keeps the heap order** of a `priorityQueueHeap` slice -/
+theorem heap_push_keeps_order (l : List Item) (x : Item) (h : Heap.Ok Item.lt l l.length 0) :
+    Heap.Ok Item.lt (Heap.push Item.lt l x) (Heap.push Item.lt l x).length 0 :=
+  push_ok itemLt_strict l x h
+
+/-- refinement relation: the slice holds the abstract queue's items (as a multiset), the counters
+    agree, and the slice is in heap order -/
+structure Refines (h : HPQ) (q : PQ) : Prop where
+  items   : h.heap.Perm q.items
+  counter : h.counter = q.counter
+  ordered : Heap.Ok Item.lt h.heap h.heap.length 0
+
+theorem refines_push {h : HPQ} {q : PQ} (r : Refines h q) (val : Nat) (prio : Int) :
+    Refines (h.push val prio) (q.push val prio) := by
+  unfold HPQ.push PQ.push
+  refine ⟨?_, by simp [r.counter], heap_push_keeps_order _ _ r.ordered⟩
+  dsimp only
+  rw [r.counter]
+  refine (push_perm _ _ _).trans ((r.items.cons _).trans ?_)
+  exact List.perm_append_comm (l₁ := [_])
+
+theorem minItem_ne_none : ∀ {l : List Item}, l ≠ [] → minItem l ≠ none
+  | [], h => absurd rfl h
+  | x :: xs, _ => by
+    unfold minItem
+    split
+    · simp
+    · split <;> simp
+
+theorem eq_of_seq_eq {l : List Item} (hpw : l.Pairwise (fun a b => a.seq < b.seq)) {a b : Item}
+    (ha : a ∈ l) (hb : b ∈ l) (h : a.seq = b.seq) : a = b := by
+  rcases List.mem_iff_getElem.mp ha with ⟨i, hi, rfl⟩
+  rcases List.mem_iff_getElem.mp hb with ⟨j, hj, rfl⟩
+  rcases Nat.lt_trichotomy i j with hlt | heq | hgt
+  · have := List.pairwise_iff_getElem.mp hpw i j hi hj hlt; omega
+  · subst heq; rfl
+  · have := List.pairwise_iff_getElem.mp hpw j i hj hi hgt; omega
+
+/-- one `Pop` of the real heap is one `pop` of the abstract queue, returning the same item -/
+theorem refines_pop {h h' : HPQ} {q : PQ} {x : Item} (hr : Reachable q) (r : Refines h q)
+    (hp : h.pop = some (x, h')) : ∃ q', q.pop = some (x, q') ∧ Refines h' q' := by
+  unfold HPQ.pop at hp
+  split at hp
+  · cases hp
+  · rename_i y l' hpop
+    cases hp
+    obtain ⟨_, hmin, hperm, hok⟩ := pop_spec itemLt_strict _ _ _ r.ordered hpop
+    have hxh : x ∈ h.heap := hperm.mem_iff.mp (List.mem_cons_self)
+    have hxq : x ∈ q.items := r.items.mem_iff.mp hxh
+    have hne : q.items ≠ [] := List.ne_nil_of_mem hxq
+    cases hm : minItem q.items with
+    | none => exact absurd hm (minItem_ne_none hne)
+    | some m =>
+      obtain ⟨hmq, hmmin⟩ := minItem_spec _ _ hm
+      -- both are least: same priority and insertion number, hence the same item
+      have h1 : Item.lt m x = false := hmin m (r.items.mem_iff.mpr hmq)
+      have h2 : Item.lt x m = false := hmmin x hxq
+      have hseq : x.seq = m.seq := by
+        unfold Item.lt at h1 h2
+        split at h1 <;> split at h2 <;> simp_all <;> omega
+      have hxm : x = m := eq_of_seq_eq (reachable_wf hr).1 hxq hmq hseq
+      subst hxm
+      refine ⟨{ q with items := q.items.erase x }, by simp [PQ.pop, hm], ?_, r.counter, hok⟩
+      have := (hperm.trans r.items).erase x
+      simpa using this
+
+/-- priority queues (real representation) reachable from `NewPriorityQueue()` by `Push` and `Pop` -/
+inductive ReachableH : HPQ → Prop where
+  | empty : ReachableH {}
+  | push {h} (val : Nat) (prio : Int) : ReachableH h → ReachableH (h.push val prio)
+  | pop {h h' x} : ReachableH h → h.pop = some (x, h') → ReachableH h'
+
+/-- **Every reachable `PriorityQueue` is heap-ordered** and refines a reachable abstract queue -/
+theorem pq_reachable_heap_ordered {h : HPQ} (hr : ReachableH h) :
+    Heap.Ok Item.lt h.heap h.heap.length 0 ∧ ∃ q, Reachable q ∧ Refines h q := by
+  induction hr with
+  | empty =>
+    have : Refines {} {} := ⟨List.Perm.refl _, rfl, by intro p c _ hc; simp at hc⟩
+    exact ⟨this.ordered, {}, .empty, this⟩
+  | push val prio _ ih =>
+    obtain ⟨_, q, hq, r⟩ := ih
+    have r' := refines_push r val prio
+    exact ⟨r'.ordered, _, .push val prio hq, r'⟩
+  | pop _ hp ih =>
+    obtain ⟨_, q, hq, r⟩ := ih
+    obtain ⟨q', hp', r'⟩ := refines_pop hq r hp
+    exact ⟨r'.ordered, q', .pop hq hp', r'⟩
+
+/-- **The real heap algorithm implements `pop_is_min` in every reachable state**: whatever
+    sequence of `Push`/`Pop` calls built the queue, container/heap's `Pop` returns the item with
+    the least (priority, insertion number); nothing queued precedes it and everything that stays
+    queued comes strictly after it. An empty result means the queue is empty. -/
+theorem real_pop_is_min {h : HPQ} (hr : ReachableH h) :
+    (h.pop = none → h.heap = []) ∧
+    ∀ x h', h.pop = some (x, h') →
+      x ∈ h.heap ∧
+      (∀ y ∈ h.heap, ¬ y.prio < x.prio ∧ ¬ (y.prio = x.prio ∧ y.seq < x.seq)) ∧
+      (∀ y ∈ h'.heap, x.prio < y.prio ∨ (x.prio = y.prio ∧ x.seq < y.seq)) ∧
+      (x :: h'.heap).Perm h.heap := by
+  obtain ⟨_, q, hq, r⟩ := pq_reachable_heap_ordered hr
+  constructor
+  · intro hn
+    unfold HPQ.pop Heap.pop at hn
+    cases hh : h.heap with
+    | nil => rfl
+    | cons a as =>
+      rw [hh] at hn
+      simp only at hn
+      split at hn
+      · rename_i hnone
+        split at hnone
+        · cases hnone
+        · rename_i hidx
+          have hlen : ((Heap.down Item.lt ((a :: as).length - 1) (Heap.swp (a :: as) 0 ((a :: as).length - 1)) 0 0
+              ((a :: as).length - 1)).1).length = (a :: as).length :=
+            ((down_perm _ _ _ _ _ _).trans (swp_perm _ _ _)).length_eq
+          have := List.getElem?_eq_none_iff.mp hidx
+          simp at this hlen
+          omega
+      · cases hn
+  · intro x h' hp
+    obtain ⟨q', hp', r'⟩ := refines_pop hq r hp
+    obtain ⟨hmem, hmin, he, _⟩ := pop_is_min _ _ _ hp'
+    have hno := no_overtaking hq hp'
+    refine ⟨r.items.mem_iff.mpr hmem, fun y hy => hmin y (r.items.mem_iff.mp hy),
+      fun y hy => hno y (r'.items.mem_iff.mp hy), ?_⟩
+    have : (x :: q'.items).Perm q.items := by
+      rw [he]; exact (List.perm_cons_erase hmem).symm
+    exact ((r'.items.cons x).trans this).trans r.items.symm
+
+/-! ## events added by a failing rule -/
+
+open Cascade in
+/-- **Events a rule added are still processed when the rule fails.** For every script (any tree of
+    events, priorities, skipped events, failing rules; both variants of the bookkeeping) run by
+    the worker loop of the cascade model: if the action of event `i` was started, every triggering
+    event `c` that this action adds is started as well — whether or not `i`'s rule then returns
+    an error — and a failing `i` is in the error report. The queue is empty at the end. -/
+theorem children_of_failing_rule_still_run (cfg : Book.Cfg) (nodes : List Node) (i c : Nat)
+    (ni nc : Node) (hi : nodes[i]? = some ni) (hc : nodes[c]? = some nc)
+    (hpar : nc.parent = some i) (htrig : nc.trig = true)
+    (hstart : i ∈ (runScript cfg nodes).started.map (·.1)) :
+    c ∈ (runScript cfg nodes).started.map (·.1) ∧
+    (ni.fails = true → i ∈ (runScript cfg nodes).errs) ∧
+    (runScript cfg nodes).q.items = [] := by
+  obtain ⟨hI, hq⟩ := runScript_spec cfg nodes
+  have hq' : (runScript cfg nodes).q.items = [] := by simpa [qv] using hq
+  refine ⟨?_, ?_, hq'⟩
+  · rcases hI.clo i hstart c nc hc hpar htrig with h | h
+    · exact h
+    · rw [hq] at h; cases h
+  · intro hf
+    exact hI.err i hstart (by simp [hi, hf])
+
+/-- every event added from outside that triggers a rule is started; no event is started twice -/
+theorem cascade_runs_each_event_once (cfg : Book.Cfg) (nodes : List Cascade.Node) :
+    ((Cascade.runScript cfg nodes).started.map (·.1)).Nodup ∧
+    ∀ c nc, nodes[c]? = some nc → nc.parent = none → nc.trig = true →
+      c ∈ (Cascade.runScript cfg nodes).started.map (·.1) := by
+  obtain ⟨hI, _⟩ := Cascade.runScript_spec cfg nodes
+  refine ⟨hI.n1, ?_⟩
+  intro c nc hc hp ht
+  exact Cascade.external_started cfg nodes c nc hc hp ht
+
+example : ((Cascade.runScript Book.current
+    [⟨none, none, true, true⟩, ⟨some 0, some 3, true, false⟩, ⟨some 0, some 1, true, false⟩]).started.map (·.1),
+    (Cascade.runScript Book.current
+    [⟨none, none, true, true⟩, ⟨some 0, some 3, true, false⟩, ⟨some 0, some 1, true, false⟩]).errs)
+    = ([1, 2, 0], [0]) := by decide
 
 /-! ## the root monitor's highest-priority report -/
 
